@@ -18,10 +18,11 @@ EXPLANATION = (
     "compared in the right direction with the TuningStatus quantity of the matching name; S5 the criterion built for "
     "simulated time carries over every other field; S6 status counters agree by name with Status members and derive from "
     "one map written only by update/mark_running_job_as_stopped; S7 StopIteration is raised exactly on 'no suggestion' and "
-    "caught only around _schedule_new_tasks. NOT decided: run-time overshoot <= n_workers (follows from C01-S8 under its "
+    "caught only around _schedule_new_tasks; S8 every trial started in a scheduling step is registered in the running set and "
+    "the status before the step can fail or end (so exhaustion in mid-batch leaves nothing untracked). NOT decided: run-time overshoot <= n_workers (follows from C01-S8 under its "
     "assumptions), exceptions raised inside the finally suite itself.")
 
-FLOOR = {"S1": 3, "S2": 5, "S3": 2, "S4": 8, "S5": 7, "S6": 6, "S7": 2}
+FLOOR = {"S1": 3, "S2": 5, "S3": 2, "S4": 8, "S5": 7, "S6": 6, "S7": 2, "S8": 2}
 
 
 def s1(ctx, rep):
@@ -396,3 +397,5 @@ def run(ctx, rep, tier="quick"):
     s5(ctx, rep)
     s6(ctx, rep)
     s7(ctx, rep)
+    from . import c01
+    c01.s10(ctx, rep, clause="S8")
